@@ -3,7 +3,7 @@ from registry_common import COMMON_ASSUME
 ENTRY = dict(
     title="Arbitrary line noise causes only protocol errors and bounded loss",
     design_ref="DESIGN.md section 6 / C14",
-    prop_modules=["C14", "TieFrame", "TieReader"],
+    prop_modules=["C14", "C14Chunks", "TieFrame", "TieReader", "TieChunks"],
     technique="Lean 4 theorems over all byte strings (progress, bounded demand, re-synchronisation by induction on the noise) + refutation witness for finding F2 + correspondence on noise corpora incl. a real AsyncProtocol producer",
     level_text=(
         "Proof over ALL byte strings: `C14.outcomes`, `C14.connLost_iff`, `C14.progress` (>= 1 byte per call, remainder is a suffix), "
@@ -17,6 +17,8 @@ ENTRY = dict(
         "only protocol errors / end of stream": "theorem for the model + correspondence (exception classes of the implementation)",
         "at least one byte per call": "theorem (C14.progress)",
         "never waits for more than the maximum frame size": "theorem (C14.bounded_consumption, never_waits_beyond_max) + correspondence (per call: bytes taken from its start delimiter <= 1000; while a call still waits, fewer than 1000 bytes counted from its first start delimiter have ARRIVED, consumed or not; noise includes idle / stuck lines over 1-3 byte values after a plausible header, longer than the maximum frame and than the 64 KiB stream buffer limit)",
+        "never waits for more than the maximum frame size -- in EVERY suspension, for every chunking and arrival schedule":
+            "theorem (C14.blocked_demand_bounded, never_demands_beyond_max, wakes_when_demand_met, every_interleaving_demand_bounded (any order of arrivals and reader runs, Model/ReaderSched) over the resumable reader machine Model/ReaderChunks: bytes demanded by the suspended primitive <= 1000 - bytes taken since the delimiter - bytes buffered) + correspondence (implementation observed at every suspension under random arrival schedules: awaited primitive, its argument, buffer length, bytes taken)",
         "producer loop keeps running": "theorem (C09Producer.producer_continues, stops_only_on_loss, producer_survives_noise: for EVERY byte stream the producer machine makes every read() of readAll and ends only at the end of the stream / a timeout / a write loss — never on a protocol error) + correspondence (real AsyncProtocol.frame_producer vs the machine at every quiescent point, harness/producer.py)",
         "frames delivered after the noise reach the application (whole connection: producer and consumers), also when the noise contains checksum-valid stray frames from the non-controller addresses 0x00 / 0x56":
             "correspondence (default AsyncProtocol fed noise + strays + a run; expected count from the reader model `read`; that every frame the reader hands out is handled or contained without losing a consumer is C09.never_stalls / no_consumer_dies / delivered_exactly_once)",
